@@ -30,4 +30,4 @@ Definition model_execute (re : string -> string -> option bool) (src : string) (
 Definition model_dump (ind : string) (lvl : nat) (e : expr) : string := dump go_quote ind lvl e.
 
 (* the documented interpreter over JSON documents (JsonEval.v: proved equal to Evaluate on such documents) *)
-Definition model_jeval (re : string -> string -> option bool) (e : expr) (j : json) : option bool := jeval re [] e j.
+Definition model_jeval (re : string -> string -> option bool) (unk : option json) (e : expr) (j : json) : option bool := jeval re unk [] e j.
